@@ -120,6 +120,10 @@ def showEmit (s : Sys) (e : Emit) : String :=
   match e.row with
   | .detail => showFile e.page ++ ">" ++ Proto.encodeStr (s.ob e.target).name ++ m
   | .allDocs => Proto.encodeStr (fullName s e.target) ++ ">" ++ showUrl (url s e.target) ++ m
+  | .classIndex =>
+    -- where the marker sits: on the node `<li>` (`n`), on the row `<div>` alone (`r`), nowhere (`0`)
+    showFile e.page ++ ">" ++ (match href s e with | none => "AssertionError" | some h => showHref h) ++ ">" ++
+      (if classNodePrivate s s.n e.target then "n" else if e.marked == some true then "r" else "0")
   | _ =>
     showFile e.page ++ ">" ++ (match href s e with | none => "AssertionError" | some h => showHref h) ++ m
 
